@@ -16,7 +16,7 @@ RULE = (
     "attribute values reached through the derived network + 1-3 automatic additions on both sides. Oracle: equal "
     "observable snapshots right after the derivation; the untouched side's deep snapshot (incl. next automatic ID) is "
     "unchanged by the edits; nested mutations through copy()/pickle are invisible in the source; both sides then assign "
-    "fresh IDs. non-trivial = the source has a nested mutable attribute value or an explicit ID, and the history "
+    "fresh IDs; a second derivation from the edited source equals the source as it is then. non-trivial = the source has a nested mutable attribute value or an explicit ID, and the history "
     "changed some edge's members; distinct = distinct canonical JSON"
 )
 BUDGET = {"quick": 2400, "thorough": 80000}
@@ -173,5 +173,14 @@ def run_case(case, ctx):
             ctx.check(len(after_obs[2]) == len(before) + want, ("fresh-id", how, cls, side, "wrong-number-of-new-ids"), lambda: "%d -> %d, expected +%d" % (len(before), len(after_obs[2]), want))
         for tag, detail in nets.integrity(net)[:2]:
             ctx.fail(("integrity", how, cls, side, tag), detail)
+    # a second derivation from the (edited, extended) source must reflect the source as it is now, not as it was the first time
+    try:
+        D2 = derive(H, how)
+    except Exception as e:  # noqa: BLE001
+        ctx.fail(("equal", how, cls, "second-derivation-raised", type(e).__name__), repr(e))
+        D2 = None
+    if D2 is not None:
+        a, b = nets.snap_obs(H), nets.snap_obs(D2)
+        ctx.check(unordered(a) == unordered(b), ("equal", how, cls, "second-derivation-is-stale"), lambda: "source %r derived %r" % (unordered(a), unordered(b)))
     explicit = any(e[0] is not None for e in case["base"]["edges"])
     ctx.mark((has_nested(case["base"]) or explicit) and changed)
